@@ -27,11 +27,16 @@ func (c bloomCfg) String() string {
 	if c.kind == "params" {
 		return fmt.Sprintf("params(n=%d,p=%g,redis=%v)", c.numItems, c.errorRate, c.redis)
 	}
-	return fmt.Sprintf("bitset(words=%d,k=%d,redis=%v)", c.words, c.numHashes, c.redis)
+	return fmt.Sprintf("%s(words=%d,k=%d,redis=%v)", c.kind, c.words, c.numHashes, c.redis)
 }
 
 func (c bloomCfg) build() (*gostatix.BloomFilter, error) {
 	switch {
+	case c.kind == "withbitset":
+		// the general constructor with an in-memory bit set: the key argument is documented as
+		// overlooked for this kind of bit set
+		bs := *gostatix.NewMemBloomFilterFromBitSet(make([]uint64, c.words), 1).GetBitSet()
+		return gostatix.NewBloomFilterWithBitSet(uint(c.words*64), c.numHashes, bs, "overlooked-key")
 	case c.kind == "params" && !c.redis:
 		return gostatix.NewMemBloomFilterWithParameters(c.numItems, c.errorRate)
 	case c.kind == "params" && c.redis:
@@ -91,6 +96,15 @@ func suiteBloom(c *Ctx) {
 	for i := 0; i < cases; i++ {
 		cfg := randBloomCfg(c, i)
 		bloomCase(c, cfg, i)
+	}
+	// fixed cases: more hash functions than any batch size (32, 64) an implementation might send
+	// SETBITs in, on both backends, whatever the seed draws above
+	for i, k := range []uint{33, 40, 70, 97} {
+		bloomCase(c, bloomCfg{kind: "bitset", redis: true, words: 2 + i, numHashes: k}, 1)
+		bloomCase(c, bloomCfg{kind: "bitset", redis: false, words: 2 + i, numHashes: k}, 2)
+	}
+	for i := 0; i < 6; i++ {
+		bloomCase(c, bloomCfg{kind: "withbitset", redis: false, words: 1 + i%3, numHashes: uint(1 + 2*i)}, i)
 	}
 	bloomConcurrent(c)
 	// small-scope exhaustive: all histories of length <= L over 3 elements for sizes 1..6
@@ -161,6 +175,8 @@ func bloomCase(c *Ctx, cfg bloomCfg, caseNo int) {
 	// state is observed through.
 	handles := []*gostatix.BloomFilter{f}
 	mayAttach := cfg.redis && f.GetMetadataKey() != ""
+	var snapDoc, snapImg []byte
+	var snapInserted map[int]bool
 	attach := func() {
 		if g, err := gostatix.NewRedisBloomFilterFromKey(f.GetMetadataKey()); err == nil && g != nil && g.GetCap() == f.GetCap() {
 			handles = append(handles, g)
@@ -190,6 +206,69 @@ func bloomCase(c *Ctx, cfg bloomCfg, caseNo int) {
 					return
 				}
 			}
+		}
+		if snapDoc == nil && c.rng.Intn(6) == 0 {
+			// remember this state: the filter is rolled back to it later, in place
+			if d, err := f.Export(); err == nil {
+				snapDoc = d
+				if !cfg.redis {
+					var buf bytes.Buffer
+					if _, err := f.WriteTo(&buf); err == nil {
+						snapImg = buf.Bytes()
+					}
+				}
+				snapInserted = map[int]bool{}
+				for k := range inserted {
+					snapInserted[k] = true
+				}
+			}
+		} else if snapDoc != nil && c.rng.Intn(8) == 0 {
+			// roll the SAME handle back to the remembered state, between two inserts of one element
+			// that the remembered state does not hold: whatever the handle remembers of its last
+			// operation describes a state that is gone
+			jn := -1
+			for cand := range pool {
+				if !snapInserted[cand] {
+					jn = cand
+					break
+				}
+			}
+			how := "Import"
+			var lerr error
+			res := safely(func() {
+				if jn >= 0 {
+					f.Insert(pool[jn])
+					f.Lookup(pool[jn])
+				}
+				if snapImg != nil && c.rng.Intn(2) == 0 {
+					how = "ReadFrom"
+					_, lerr = f.ReadFrom(bytes.NewReader(snapImg))
+				} else {
+					lerr = f.Import(snapDoc)
+				}
+			})
+			c.branch("rollback-in-place-" + how)
+			if res.panicked || lerr != nil {
+				c.fail([]string{"C10", "C11"}, "bloom-reload-fails", fmt.Sprintf("%s of an earlier image of the filter into the filter itself failed: %v %v", how, res.panicVal, lerr), cfg.String())
+				return
+			}
+			handles = []*gostatix.BloomFilter{f}
+			mayAttach = false
+			inserted = map[int]bool{}
+			for k := range snapInserted {
+				inserted[k] = true
+			}
+			hist = append(hist, "rollback")
+			if jn >= 0 {
+				if f.Lookup(pool[jn]) && !eqU64sub(probes[jn], f, cfg.redis) {
+					c.fail([]string{"C01", "C10", "C11"}, "bloom-rollback-remembers", fmt.Sprintf("element %x, inserted only after the remembered state was taken, is reported present after the roll-back although not all of its bits are set", pool[jn]), cfg.String())
+					return
+				}
+				f.Insert(pool[jn])
+				inserted[jn] = true
+				hist = append(hist, fmt.Sprintf("I%d", jn))
+			}
+			snapDoc, snapImg = nil, nil
 		}
 		via := handles[c.rng.Intn(len(handles))]
 		pre, err := bloomAbs(f, cfg.redis)
@@ -260,6 +339,24 @@ func bloomCase(c *Ctx, cfg bloomCfg, caseNo int) {
 		c.nontrivial(fmt.Sprintf("%s|%v", cfg, hist))
 	}
 	c.sample(map[string]interface{}{"config": cfg.String(), "size": size, "numHashes": k, "history": hist})
+}
+
+// eqU64sub: are all of the given bits set in the filter?
+func eqU64sub(bits []uint64, f *gostatix.BloomFilter, redis bool) bool {
+	a, err := bloomAbs(f, redis)
+	if err != nil {
+		return true
+	}
+	set := map[uint64]bool{}
+	for _, b := range a.Bits {
+		set[b] = true
+	}
+	for _, b := range bits {
+		if !set[b] {
+			return false
+		}
+	}
+	return true
 }
 
 // bloomReload: the current state loaded into another, used handle of other dimensions
